@@ -23,6 +23,16 @@ sys.path.insert(0, str(VERIF))
 from tools.mutant_list import MUTANTS  # noqa: E402
 
 
+def _write(out: Path, results: list) -> None:
+    out.parent.mkdir(exist_ok=True)
+    prev = {}
+    if out.exists():
+        prev = {r["id"]: r for r in json.loads(out.read_text())}
+    for r in results:
+        prev[r["id"]] = r
+    out.write_text(json.dumps(sorted(prev.values(), key=lambda r: (len(r["id"]), r["id"])), indent=1))
+
+
 def main() -> int:
     ap = argparse.ArgumentParser()
     ap.add_argument("--only", default=None)
@@ -76,18 +86,12 @@ def main() -> int:
             if status == "harness_error":
                 print(p.stderr[-1500:])
             results.append({"id": m["id"], "property": m["property"], "what": m["what"], "status": status, "signatures": sigs[:8], "wall_s": round(dt, 1)})
+            _write(Path(args.out), results)  # keep what is done if the run is cut short
     finally:
         shutil.rmtree(scratch, ignore_errors=True)
         for d in (VERIF / "replays").glob("*.json") if (VERIF / "replays").exists() else []:
             pass
-    out = Path(args.out)
-    out.parent.mkdir(exist_ok=True)
-    prev = {}
-    if out.exists():
-        prev = {r["id"]: r for r in json.loads(out.read_text())}
-    for r in results:
-        prev[r["id"]] = r
-    out.write_text(json.dumps(sorted(prev.values(), key=lambda r: r["id"]), indent=1))
+    _write(Path(args.out), results)
     missed = [r for r in results if r["status"] != "caught"]
     print(f"{len(results) - len(missed)}/{len(results)} caught")
     return 1 if missed else 0
